@@ -22,7 +22,7 @@ TOL = 1e-12
 
 @st.composite
 def cases(draw, tier="quick"):
-    spec = draw(pomdp_specs(max_states=5 if tier == "thorough" else 4))
+    spec = draw(pomdp_specs(max_states=5 if tier == "thorough" else 4, extreme=True))
     b = draw(belief_weights(spec["n"]))
     seq = draw(st.lists(st.tuples(st.integers(0, spec["m"] - 1), st.integers(0, spec["k"] - 1)), min_size=0, max_size=5))
     return {"pomdp": spec, "belief": b, "seq": [list(x) for x in seq]}
